@@ -469,6 +469,45 @@ def damage_data_disk(arr, fs, rng, d, how, state):
                             os.utime(fs.path(d, s), ns=(e[2], e[2]))
             except OSError:
                 pass
+    elif how == "relinks":
+        # links that are still there but no longer what was recorded: a symlink pointing to a shorter / longer / other
+        # target or replaced by a plain file; a hard-link replaced by an independent copy of its bytes
+        for s, e in list(state[d].items()):
+            if e[0] not in ("symlink", "hardlink") or rng.random() < 0.25:
+                continue
+            p = fs.path(d, s)
+            try:
+                if e[0] == "symlink":
+                    t = e[1]
+                    k = rng.choice([0, 0, 0, 1, 1, 2, 3, 4])
+                    if k == 0 and len(t) > 1:
+                        nt = t[:rng.randint(1, len(t) - 1)]
+                    elif k == 1:
+                        nt = t + rng.choice([b"x", b".bak", b"/"])
+                    elif k == 2:
+                        nt = bytes([t[0] ^ 1]) + t[1:] if t[0] not in (0x2e, 0x2f, 0x2f ^ 1, 1) else b"q" + t
+                    elif k == 3:
+                        nt = None
+                    else:
+                        nt = b"somewhere/else"
+                    os.unlink(p)
+                    if nt is None:
+                        with open(p, "wb") as fh:
+                            fh.write(t)
+                    else:
+                        os.symlink(nt, p)
+                    did = True
+                else:
+                    with open(p, "rb") as fh:
+                        data = fh.read()
+                    st = os.lstat(p)
+                    os.unlink(p)
+                    with open(p, "wb") as fh:
+                        fh.write(data)
+                    os.utime(p, ns=(st.st_atime_ns, st.st_mtime_ns))
+                    did = True
+            except OSError:
+                pass
     elif how == "rmlinks":
         others = [s for s, e in state[d].items() if e[0] in ("symlink", "hardlink", "dir")]
         for s in others:
